@@ -280,8 +280,12 @@ static void scenario_lstopo(Case &c, Draw &d) {
 // ---------------------------------------------------------------------------------------------------------------------------------
 static void scenario_diff_patch(Case &c, Draw &d) {
   Input in = gen_input(c, d); unsigned long fl = HWLOC_TOPOLOGY_FLAG_INCLUDE_DISALLOWED | HWLOC_TOPOLOGY_FLAG_IMPORT_SUPPORT; hwloc_topology_t A = load_like(c, in, -1, false, fl), B = load_like(c, in, -1, false, fl);
+  // two cases in three keep to what a diff can express (every object gets a name first, then renames and size changes), so that hwloc-patch really runs;
+  // one case in three first disallows some PUs in both topologies (the tools must keep disallowed objects, or the patched file is not B)
+  bool repr = d.chance(2, 3); if (repr) { auto oa = all_objs(A), ob = all_objs(B); for (size_t i = 0; i < oa.size() && i < ob.size(); i++) if (!oa[i]->name) { oa[i]->name = strdup(strf("n%zu", i).c_str()); free(ob[i]->name); ob[i]->name = strdup(strf("n%zu", i).c_str()); } }
+  if (d.chance(1, 3)) { hwloc_bitmap_t al = gen_subset(d, hwloc_topology_get_topology_cpuset(A), 2, 3); if (hwloc_bitmap_iszero(al)) hwloc_bitmap_set(al, hwloc_bitmap_first(hwloc_topology_get_topology_cpuset(A))); int r1 = hwloc_topology_allow(A, al, NULL, HWLOC_ALLOW_FLAG_CUSTOM), r2 = hwloc_topology_allow(B, al, NULL, HWLOC_ALLOW_FLAG_CUSTOM); CHECK(c, r1 == 0 && r2 == 0, "harness", "allow failed"); c.descf("\n | allowed cpuset %s in both", bstr(al).c_str()); c.cls("diffpatch:disallowed-pus"); hwloc_bitmap_free(al); }
   auto objs = all_objs(B); int nedits = d.range(1, 6);
-  for (int i = 0; i < nedits; i++) { hwloc_obj_t o = objs[d.raw() % objs.size()]; int k = d.range(0, 2); std::string nm = strf("k%d", i), val = strf("v%u", d.raw() % 1000);
+  for (int i = 0; i < nedits; i++) { hwloc_obj_t o = objs[d.raw() % objs.size()]; int k = d.range(0, 2); if (repr && k == 0) k = 1; std::string nm = strf("k%d", i), val = strf("v%u", d.raw() % 1000);
     if (k == 0) { hwloc_obj_add_info(o, nm.c_str(), val.c_str()); c.descf("\n | add info %s=%s on %s#%u", nm.c_str(), val.c_str(), hwloc_obj_type_string(o->type), o->logical_index); }
     else if (k == 1) { free(o->name); o->name = strdup(val.c_str()); c.descf("\n | name of %s#%u = %s", hwloc_obj_type_string(o->type), o->logical_index, val.c_str()); }
     else if (o->type == HWLOC_OBJ_NUMANODE || hwloc_obj_type_is_cache(o->type)) { if (o->type == HWLOC_OBJ_NUMANODE) o->attr->numanode.local_memory += 4096; else o->attr->cache.size += 1024; c.descf("\n | size of %s#%u changed", hwloc_obj_type_string(o->type), o->logical_index); }
